@@ -20,6 +20,7 @@ Inductive stmt : Type :=
 | SFor (i : ident) (body : block)                  (* for i in range(n) *)
 | SReturn (e : option pexpr)
 | SAssignR (x : ident) (r : rhs)                   (* x = [elt for t in range(n)]  (Lang/InferComp.v) *)
+| STuple (xs : list ident) (es : list pexpr)       (* x1, x2, ... = e1, e2, ...  (names on the left, a tuple/list display on the right) *)
 with block : Type := BNil | BCons (s : stmt) (r : block)
 with branches : Type := BrNil | BrCons (b : block) (r : branches)
 with oblock : Type := ONone | OSome (b : block).
@@ -134,6 +135,49 @@ Section Block.
                                    (st_decls st ++ [(x, cpp_type t)]) (add_label (st_acc st) x t))
     end.
 
+  (* tuple assignment (the Tuple/List target branch of _handle_assignment_ast).  The right-hand sides are inferred left to
+     right (threading var_types), then var_types[x_i] = t_i for every target.  At column 0 with every target new the names
+     become globals directly; otherwise every value goes through a temporary `__tmp_assign_k` declared with the C type
+     of its label - recorded in [a_labels] under [tmp_marker] (a text no identifier has) - and a target is declared
+     iff it is not declared yet.  Fewer values than names: the code raises IndexError (rejected). *)
+  Fixpoint infer_ds (s : S) (c : dctx) (es : list pexpr) : option (list ty * dctx * S) :=
+    match es with
+    | [] => Some ([], c, s)
+    | e :: r =>
+        match infer_d s c e with
+        | None => None
+        | Some (t, c1, s1) =>
+            match infer_ds s1 c1 r with
+            | None => None
+            | Some (ts, c2, s2) => Some (t :: ts, c2, s2)
+            end
+        end
+    end.
+  Definition tmp_marker : ident := [35;116;109;112].         (* "#tmp" *)
+  Definition do_tuple (glob : bool) (s : S) (st : bstate) (xs : list ident) (es : list pexpr) : option (S * bstate) :=
+    let es1 := firstn (length xs) es in
+    if Nat.ltb (length es1) (length xs) then None else
+    match infer_ds s (st_ctx st) es1 with
+    | None => None
+    | Some (ts, c1, s1) =>
+        let xts := combine xs ts in
+        let types1 := fold_left (fun G xt => tset G (fst xt) (snd xt)) xts (d_types c1) in
+        let all_new := forallb (fun x => negb (tmem x (d_decl c1))) xs in
+        let a0 := st_acc st in
+        if all_new && glob then
+          Some (s1, mk_bstate (mk_dctx types1 (fold_left add_name xs (d_decl c1)) (d_promo c1))
+                              (st_decls st ++ map (fun xt => (fst xt, cpp_type (snd xt))) xts)
+                              (mk_acc (a_labels a0 ++ xts) (a_rets a0) (a_fn a0)))
+        else
+          let step := fun (acc0 : list ident * list (ident * cty)) (xt : ident * ty) =>
+                        if tmem (fst xt) (fst acc0) then acc0
+                        else (fst acc0 ++ [fst xt], snd acc0 ++ [(fst xt, cpp_type (snd xt))]) in
+          let '(decl2, newdecls) := fold_left step xts (d_decl c1, []) in
+          Some (s1, mk_bstate (mk_dctx types1 decl2 (d_promo c1))
+                              (st_decls st ++ newdecls)
+                              (mk_acc (a_labels a0 ++ map (fun t => (tmp_marker, t)) ts ++ xts) (a_rets a0) (a_fn a0)))
+    end.
+
   (* lines 1828-1852: never declares *)
   Definition do_aug (s : S) (st : bstate) (x : ident) (op : binop) (e : pexpr) : option (S * bstate) :=
     match op with
@@ -183,6 +227,7 @@ Section Block.
     | SAug v op e => do_aug s st v op e
     | SReturn e => do_return s st e
     | SAssignR v r => do_assign_r s st v r
+    | STuple xs es => do_tuple false s st xs es
     | SIf brs els =>
         let base := st_ctx st in
         match run_branches s base (d_promo base) (st_acc st) brs with
@@ -271,7 +316,8 @@ Record fsrc := mk_fsrc {
   fs_ret : option text;                           (* annotated return *)
   fs_body : block
 }.
-Record fdef := mk_fdef { fd_params : list (ident * cty); fd_ret : cty; fd_locals : list (ident * cty) }.
+Record fdef := mk_fdef { fd_params : list (ident * cty); fd_ret : cty; fd_locals : list (ident * cty);
+                         fd_tmps : list cty }.        (* the tuple-assignment temporaries declared inside the body *)
 
 Record fenv := mk_fenv {
   fe_src : list (ident * fsrc);                                   (* function_sources *)
@@ -280,11 +326,14 @@ Record fenv := mk_fenv {
   fe_defs : list (ident * list (list ty * fdef));                 (* function_defs *)
   fe_calls : list (ident * list (list ty));                       (* function_call_signatures *)
   fe_primary : list (ident * list ty);                            (* function_primary_signature *)
-  fe_err : bool                                                   (* a ValueError was raised inside an on-demand variant parse *)
+  fe_err : bool;                                                  (* a ValueError was raised inside an on-demand variant parse *)
+  fe_refresh : list (ident * list ty)                             (* _refreshing_functions: the on-demand parses in progress *)
 }.
-Definition fenv0 : fenv := mk_fenv [] [] [] [] [] [] false.
+Definition fenv0 : fenv := mk_fenv [] [] [] [] [] [] false [].
 Definition set_err (fe : fenv) : fenv :=
-  mk_fenv (fe_src fe) (fe_F fe) (fe_alias fe) (fe_defs fe) (fe_calls fe) (fe_primary fe) true.
+  mk_fenv (fe_src fe) (fe_F fe) (fe_alias fe) (fe_defs fe) (fe_calls fe) (fe_primary fe) true (fe_refresh fe).
+Definition set_refresh (fe : fenv) (r : list (ident * list ty)) : fenv :=
+  mk_fenv (fe_src fe) (fe_F fe) (fe_alias fe) (fe_defs fe) (fe_calls fe) (fe_primary fe) (fe_err fe) r.
 
 Fixpoint aset {A} (l : list (ident * A)) (k : ident) (v : A) : list (ident * A) :=
   match l with
@@ -300,8 +349,10 @@ Definition variants_of (F : ftable) (f : ident) : list (list ty * ty) :=
   match tlookup f F with Some (FVariants vs) => vs | _ => [] end.
 Definition get_or {A} (d : A) (o : option A) : A := match o with Some a => a | None => d end.
 
-(* _parse_function with a given signature ([forced] = None: the def itself, labels from annotations) *)
-Definition parse_function_core (C : option ictx) (fe : fenv) (cur : dctx) (name : ident) (src : fsrc)
+(* _parse_function with a given signature ([forced] = None: the def itself, labels from annotations), the body typed
+   against the function tables AS THEY ARE (no on-demand parse of a callee): what _parse_function does for a body
+   that calls no user function (Proofs/DynP.v: parse_function_core = parse_function_static on such bodies) *)
+Definition parse_function_static (C : option ictx) (fe : fenv) (cur : dctx) (name : ident) (src : fsrc)
   (forced : option (list ty)) : option (fenv * option pmap * list ty) :=
   let params := fs_params src in
   let arity_ok := match forced with Some sg => Nat.eqb (length sg) (length params) | None => true end in
@@ -332,15 +383,28 @@ Definition parse_function_core (C : option ictx) (fe : fenv) (cur : dctx) (name 
                     then aset (fe_alias fe) name (sset (get_or [] (tlookup name (fe_alias fe))) requested final)
                     else (match tlookup name (fe_alias fe) with Some _ => fe_alias fe | None => aset (fe_alias fe) name [] end) in
           let d := mk_fdef (map (fun pt => (fst (fst pt), cpp_type (snd pt))) (combine params final))
-                           (cpp_type merged) (st_decls st1) in
+                           (cpp_type merged) (st_decls st1)
+                           (map (fun xt => cpp_type (snd xt))
+                                (filter (fun xt => text_eqb (fst xt) tmp_marker) (a_labels (st_acc st1)))) in
           let defs := aset (fe_defs fe) name (sset (get_or [] (tlookup name (fe_defs fe))) final d) in
-          Some (mk_fenv (aset (fe_src fe) name src) (aset F0 name (FVariants vs2)) al defs (fe_calls fe) (fe_primary fe) (fe_err fe),
+          Some (mk_fenv (aset (fe_src fe) name src) (aset F0 name (FVariants vs2)) al defs (fe_calls fe) (fe_primary fe) (fe_err fe)
+                        (fe_refresh fe),
                 share_back (d_promo cur) (d_promo (st_ctx st1)), final)
       end
   end.
 
+(* ---- the real thing: the body of a function is typed with the SAME on-demand machinery as the top level, so a helper
+   that calls an earlier helper under a new signature makes _ensure_function_variant parse that variant in the middle of
+   the caller's body.  The mutual recursion _parse_function -> _infer_expr_type -> _ensure_function_variant ->
+   _parse_function is cut by [_refreshing_functions] in the code (a (name, signature) being parsed is not parsed again)
+   and, here, additionally by fuel: the nesting depth of on-demand parses ([fn_fuel]; running out rejects). ---- *)
+Definition pf_type := fenv -> dctx -> ident -> fsrc -> option (list ty) -> option (fenv * option pmap * list ty).
+
+Definition refreshing (fe : fenv) (name : ident) (sg : list ty) : bool :=
+  existsb (fun k => text_eqb (fst k) name && sig_eqb (snd k) sg) (fe_refresh fe).
+
 (* _ensure_function_variant *)
-Definition ensure_variant (C : option ictx) (fe : fenv) (cur : dctx) (name : ident) (sg : list ty)
+Definition ensure_variant_with (pf : pf_type) (fe : fenv) (cur : dctx) (name : ident) (sg : list ty)
   : option (fenv * option pmap) :=
   let canonical := resolve_alias (fe_alias fe) name sg in
   match sig_lookup canonical (get_or [] (tlookup name (fe_defs fe))) with
@@ -349,12 +413,84 @@ Definition ensure_variant (C : option ictx) (fe : fenv) (cur : dctx) (name : ide
       match tlookup name (fe_src fe) with
       | None => Some (fe, d_promo cur)
       | Some src =>
-          match parse_function_core C fe cur name src (Some sg) with
-          | None => None
-          | Some (fe1, p1, _) => Some (fe1, p1)
-          end
+          if refreshing fe name sg then Some (fe, d_promo cur)
+          else
+            match pf (set_refresh fe ((name, sg) :: fe_refresh fe)) cur name src (Some sg) with
+            | None => None
+            | Some (fe1, p1, _) => Some (set_refresh fe1 (fe_refresh fe), p1)       (* finally: refreshing.remove(key) *)
+            end
       end
   end.
+
+(* the user-function step of _infer_expr_type when ctx is given.
+   A ValueError inside the on-demand parse aborts the whole parse: recorded in [fe_err],
+   which [run_item] turns into a rejection. *)
+Definition call_dyn_with (pf : pf_type) (declared : list ident) (sp : fenv * option pmap) (G : tenv)
+  (f : ident) (sg : list ty) : (fenv * option pmap) * option ty :=
+  let '(fe, p) := sp in
+  let recorded := get_or [] (tlookup f (fe_calls fe)) in
+  let calls := if existsb (sig_eqb sg) recorded then (match tlookup f (fe_calls fe) with Some _ => fe_calls fe | None => aset (fe_calls fe) f [] end)
+               else aset (fe_calls fe) f (recorded ++ [sg]) in
+  let fe1 := mk_fenv (fe_src fe) (fe_F fe) (fe_alias fe) (fe_defs fe) calls (fe_primary fe) (fe_err fe) (fe_refresh fe) in
+  let '(fe2, p2) := get_or (set_err fe1, p) (ensure_variant_with pf fe1 (mk_dctx G declared p) f sg) in
+  ((fe2, p2), resolve_call (fe_F fe2) (fe_alias fe2) f sg).
+
+Definition setdefault {A} (l : list (ident * A)) (k : ident) (v : A) : list (ident * A) :=
+  match tlookup k l with Some _ => l | None => aset l k v end.
+
+(* _parse_function *)
+Definition parse_function_step (C : option ictx) (pf : pf_type) : pf_type := fun fe cur name src forced =>
+  let params := fs_params src in
+  let arity_ok := match forced with Some sg => Nat.eqb (length sg) (length params) | None => true end in
+  if negb arity_ok then None else
+  let labels :=
+    match forced with
+    | Some sg => sg
+    | None => map (fun pa => annotation_label (snd pa)) params
+    end in
+  let child_types := fold_left (fun G pl => tset G (fst (fst pl)) (snd pl)) (combine params labels) (d_types cur) in
+  let child_decl := fold_left add_name (map fst params) (d_decl cur) in
+  (* function_sources[name] = ... ; functions / aliases / defs .setdefault(name, {}) : before the body *)
+  let fe0 := mk_fenv (aset (fe_src fe) name src) (setdefault (fe_F fe) name (FVariants []))
+                     (setdefault (fe_alias fe) name []) (setdefault (fe_defs fe) name [])
+                     (fe_calls fe) (fe_primary fe) (fe_err fe) (fe_refresh fe) in
+  let st := mk_bstate (mk_dctx child_types child_decl (d_promo cur)) [] (mk_acc [] [] true) in
+  match run_block fenv (call_dyn_with pf) C fe0 st (fs_body src) with
+  | None => None
+  | Some (feb, st1) =>
+      if fe_err feb then None else
+      match merge_return_types (a_rets (st_acc st1)) false with
+      | None => None
+      | Some merged0 =>
+          let annotated := match fs_ret src with Some n => Some (annotation_label (Some n)) | None => None end in
+          let merged := override_return merged0 annotated (length (a_rets (st_acc st1))) in
+          let final := map (fun pa => tget (d_types (st_ctx st1)) (fst pa)) params in
+          let requested := match forced with Some sg => sg | None => final end in
+          let vs1 := sset (variants_of (fe_F feb) name) final merged in
+          let differs := negb (sig_eqb requested final) in
+          let vs2 := if differs then sset vs1 requested merged else vs1 in
+          let al := if differs
+                    then aset (fe_alias feb) name (sset (get_or [] (tlookup name (fe_alias feb))) requested final)
+                    else fe_alias feb in
+          let d := mk_fdef (map (fun pt => (fst (fst pt), cpp_type (snd pt))) (combine params final))
+                           (cpp_type merged) (st_decls st1)
+                           (map (fun xt => cpp_type (snd xt))
+                                (filter (fun xt => text_eqb (fst xt) tmp_marker) (a_labels (st_acc st1)))) in
+          let defs := aset (fe_defs feb) name (sset (get_or [] (tlookup name (fe_defs feb))) final d) in
+          Some (mk_fenv (fe_src feb) (aset (fe_F feb) name (FVariants vs2)) al defs (fe_calls feb) (fe_primary feb) (fe_err feb)
+                        (fe_refresh feb),
+                share_back (d_promo cur) (d_promo (st_ctx st1)), final)
+      end
+  end.
+
+Fixpoint parse_function_fuel (C : option ictx) (fuel : nat) : pf_type :=
+  match fuel with
+  | O => fun _ _ _ _ _ => None
+  | Datatypes.S k => parse_function_step C (parse_function_fuel C k)
+  end.
+Definition fn_fuel : nat := 24.
+Definition parse_function_core (C : option ictx) : pf_type := parse_function_fuel C (Datatypes.S fn_fuel).
+Definition ensure_variant (C : option ictx) := ensure_variant_with (parse_function_fuel C fn_fuel).
 
 (* a def line at top level: parse with the annotated labels, then the variants already requested *)
 Definition parse_def (C : option ictx) (fe : fenv) (cur : dctx) (name : ident) (src : fsrc)
@@ -363,7 +499,7 @@ Definition parse_def (C : option ictx) (fe : fenv) (cur : dctx) (name : ident) (
   | None => None
   | Some (fe1, p1, final) =>
       let fe2 := mk_fenv (fe_src fe1) (fe_F fe1) (fe_alias fe1) (fe_defs fe1) (fe_calls fe1)
-                         (aset (fe_primary fe1) name final) (fe_err fe1) in
+                         (aset (fe_primary fe1) name final) (fe_err fe1) (fe_refresh fe1) in
       fold_left (fun acc0 requested =>
                    match acc0 with
                    | None => None
@@ -374,18 +510,7 @@ Definition parse_def (C : option ictx) (fe : fenv) (cur : dctx) (name : ident) (
                 (get_or [] (tlookup name (fe_calls fe1))) (Some (fe2, p1))
   end.
 
-(* the user-function step of _infer_expr_type when ctx is given (lines 1111-1132).
-   A ValueError inside the on-demand parse aborts the whole parse: recorded in [fe_err],
-   which [run_item] turns into a rejection. *)
-Definition call_dyn (C : option ictx) (declared : list ident) (sp : fenv * option pmap) (G : tenv)
-  (f : ident) (sg : list ty) : (fenv * option pmap) * option ty :=
-  let '(fe, p) := sp in
-  let recorded := get_or [] (tlookup f (fe_calls fe)) in
-  let calls := if existsb (sig_eqb sg) recorded then (match tlookup f (fe_calls fe) with Some _ => fe_calls fe | None => aset (fe_calls fe) f [] end)
-               else aset (fe_calls fe) f (recorded ++ [sg]) in
-  let fe1 := mk_fenv (fe_src fe) (fe_F fe) (fe_alias fe) (fe_defs fe) calls (fe_primary fe) (fe_err fe) in
-  let '(fe2, p2) := get_or (set_err fe1, p) (ensure_variant C fe1 (mk_dctx G declared p) f sg) in
-  ((fe2, p2), resolve_call (fe_F fe2) (fe_alias fe2) f sg).
+Definition call_dyn (C : option ictx) := call_dyn_with (parse_function_fuel C fn_fuel).
 
 (* ---- whole programs ---- *)
 Inductive item :=
@@ -403,7 +528,11 @@ Definition pstate0 : pstate := mk_pstate fenv0 empty_ctx [] [] [].
 Definition run_item (C : option ictx) (ps : pstate) (it : item) : option pstate :=
   match it with
   | IStmt s =>
-      match run_stmt fenv (call_dyn C) C (p_fe ps) (mk_bstate (p_ctx ps) (p_globals ps) (mk_acc (p_labels ps) [] false)) s with
+      match (match s with
+             | STuple xs es =>                       (* column 0 is the global scope: new names need no temporaries *)
+                 do_tuple fenv (call_dyn C) C true (p_fe ps) (mk_bstate (p_ctx ps) (p_globals ps) (mk_acc (p_labels ps) [] false)) xs es
+             | _ => run_stmt fenv (call_dyn C) C (p_fe ps) (mk_bstate (p_ctx ps) (p_globals ps) (mk_acc (p_labels ps) [] false)) s
+             end) with
       | None => None
       | Some (fe1, st1) =>
           if fe_err fe1 then None
